@@ -296,6 +296,22 @@ func (e *env) catalogue() []kase {
 		tx.Scripts = other.Scripts
 		ks = append(ks, kase{name: "invalid:witness-of-another-transaction", tx: tx})
 	}
+	// the limit shared by signers and attributes (16 in total): at it and one above
+	conflicts := func(n int) []transaction.Attribute {
+		var as []transaction.Attribute
+		for k := 0; k < n; k++ {
+			as = append(as, transaction.Attribute{Type: transaction.ConflictsT, Value: &transaction.Conflicts{Hash: util.Uint256{0x5a, byte(h), byte(k), byte(n)}}})
+		}
+		return as
+	}
+	one := []neotest.Signer{e.singles[0]}
+	two := []neotest.Signer{e.singles[1], e.singles[2]}
+	ks = append(ks,
+		kase{name: "valid:signers-plus-attributes-at-the-limit:1+15", tx: e.build(one, script(3), conflicts(transaction.MaxAttributes-1), nil), valid: true},
+		kase{name: "invalid:signers-plus-attributes-above-the-limit:1+16", tx: e.build(one, script(3), conflicts(transaction.MaxAttributes), nil)},
+		kase{name: "valid:signers-plus-attributes-at-the-limit:2+14", tx: e.build(two, script(3), conflicts(transaction.MaxAttributes-2), nil), valid: true},
+		kase{name: "invalid:signers-plus-attributes-above-the-limit:2+15", tx: e.build(two, script(3), conflicts(transaction.MaxAttributes-1), nil)},
+	)
 	if len(sg) > 1 {
 		tx := e.build(sg, scr(), nil, nil)
 		tx.Scripts[0], tx.Scripts[1] = tx.Scripts[1], tx.Scripts[0]
